@@ -512,4 +512,116 @@ example : isSupported S2T.Gen.Router.tables "noext".toList (some "text/plain".to
   decide +kernel
 example : isSupported S2T.Gen.Router.tables ".docx".toList none = false := by decide +kernel
 
+/-! ## The translated source functions themselves (end to end)
+
+The statements above are about `S2T.Model.Router`; `Props/C07_Src.lean` proves the functions
+re-translated from `router.py` on every run equal to that model.  Composed here, the property is
+stated about `is_supported_file` / `get_extractor` **as the source has them now**, for every host
+(`Env`: any `str.lower`, any `mimetypes.guess_type`) and every path: a change of either function that
+lets the raw path, or the MIME answer of a path with a known extension, reach the decision makes one
+of these proofs fail. -/
+section src
+open S2T.Py S2T.Gen.PyRouter S2T.Gen.Router
+
+/-- **C07 at the source level (equivalence).** -/
+theorem C07_src_equiv (env : Env) (path : Py.Str) :
+    is_supported_file env path = .ok true ↔ ∃ f, get_extractor env path = .ok f := by
+  have hs := Src.is_supported_file_eq env path
+  have hg := Src.get_extractor_eq env path
+  have he := C07_equiv (env.lower path) (env.guessType (env.lower path)).1
+  rw [hs]
+  constructor
+  · intro h
+    have hb : isSupported tables (env.lower path) (env.guessType (env.lower path)).1 = true := by
+      simpa [pure, Except.pure] using h
+    obtain ⟨f, hf⟩ := he.mp hb
+    rw [hf] at hg
+    refine ⟨f, ?_⟩
+    cases hx : get_extractor env path with
+    | ok g => rw [hx] at hg; simp [Except.mapError] at hg; rw [hg]
+    | error e => rw [hx] at hg; simp [Except.mapError] at hg
+  · rintro ⟨f, hf⟩
+    rw [hf] at hg
+    cases hx : getExtractor tables (env.lower path) (env.guessType (env.lower path)).1 with
+    | ok g =>
+      have := he.mpr ⟨g, hx⟩
+      rw [this]; rfl
+    | error e => rw [hx] at hg; simp [Except.mapError] at hg
+
+/-- **C07 at the source level.** `is_supported_file` never raises. -/
+theorem C07_src_total (env : Env) (path : Py.Str) :
+    ∃ b, is_supported_file env path = .ok b := ⟨_, Src.is_supported_file_eq env path⟩
+
+/-- **C07 at the source level (only error).** A failing `get_extractor` raises the
+    format-not-supported error, and does so only for a path `is_supported_file` answers `False` for. -/
+theorem C07_src_only_error (env : Env) (path : Py.Str) (e : Exc)
+    (h : get_extractor env path = .error e) :
+    e.cls = "ExtractionFileFormatNotSupportedError" ∧ is_supported_file env path = .ok false := by
+  have hg := Src.get_extractor_eq env path
+  rw [h] at hg
+  constructor
+  · cases hx : getExtractor tables (env.lower path) (env.guessType (env.lower path)).1 with
+    | ok g => rw [hx] at hg; simp [Except.mapError] at hg
+    | error e' =>
+      rw [hx] at hg
+      simp only [Except.mapError, Src.classify] at hg
+      by_cases hc : e.cls = "ExtractionFileFormatNotSupportedError"
+      · exact hc
+      · simp [hc] at hg
+  · obtain ⟨b, hb⟩ := C07_src_total env path
+    cases b with
+    | false => exact hb
+    | true =>
+      obtain ⟨f, hf⟩ := (C07_src_equiv env path).mp hb
+      rw [hf] at h; cases h
+
+/-- **C07 at the source level (case-insensitive).** -/
+theorem C07_src_case_insensitive (env : Env) (p q : Py.Str) (h : env.lower p = env.lower q) :
+    get_extractor env p = get_extractor env q ∧ is_supported_file env p = is_supported_file env q := by
+  constructor
+  · unfold get_extractor; simp only [h]
+  · unfold is_supported_file; simp only [h]
+
+/-- **C07 at the source level (MIME-database independence).** -/
+theorem C07_src_mime_independent (env env' : Env) (path : Py.Str) (t : Py.Str)
+    (hl : env'.lower = env.lower)
+    (ht : _file_type_from_extension (env.lower path) = some t) :
+    get_extractor env' path = get_extractor env path ∧
+    is_supported_file env' path = .ok true ∧ is_supported_file env path = .ok true := by
+  rw [Src.file_type_from_extension_eq] at ht
+  obtain ⟨f, _, hall⟩ := C07_ext_decides (env.lower path) t ht
+  have key : ∀ e : Env, e.lower = env.lower → get_extractor e path = .ok f := by
+    intro e hle
+    have hg := Src.get_extractor_eq e path
+    rw [hle, hall] at hg
+    cases hx : get_extractor e path with
+    | ok g => rw [hx] at hg; simp [Except.mapError] at hg; rw [hg]
+    | error x => rw [hx] at hg; simp [Except.mapError] at hg
+  refine ⟨by rw [key env' hl, key env rfl], ?_, ?_⟩
+  · exact (C07_src_equiv env' path).mpr ⟨f, key env' hl⟩
+  · exact (C07_src_equiv env path).mpr ⟨f, key env rfl⟩
+
+
+/-! ### Non-vacuity of the source-level statements -/
+/-- an ASCII host: `str.lower` on ASCII, an empty MIME database -/
+def asciiEnv : Env := ⟨fun s => s.map Char.toLower, fun _ => (none, none), []⟩
+/-- a host whose MIME database calls everything a PDF -/
+def hostileEnv : Env := ⟨fun s => s.map Char.toLower, fun _ => (some "application/pdf".toList, none), []⟩
+example : asciiEnv.lower "Dir/Report.DOCX".toList = asciiEnv.lower "dir/report.docx".toList := by decide +kernel
+example : _file_type_from_extension (asciiEnv.lower "Dir/Report.DOCX".toList) = some "docx".toList := by
+  rw [Src.file_type_from_extension_eq]; decide +kernel
+example : hostileEnv.lower = asciiEnv.lower := rfl
+example : ∃ f, get_extractor hostileEnv "noext".toList = .ok f :=
+  (C07_src_equiv _ _).mp (by
+    rw [Src.is_supported_file_eq]
+    exact congrArg Except.ok (by decide +kernel :
+      isSupported tables (hostileEnv.lower "noext".toList)
+        (hostileEnv.guessType (hostileEnv.lower "noext".toList)).1 = true))
+example : is_supported_file asciiEnv "noext".toList = .ok false := by
+  rw [Src.is_supported_file_eq]
+  exact congrArg Except.ok (by decide +kernel :
+    isSupported tables (asciiEnv.lower "noext".toList)
+      (asciiEnv.guessType (asciiEnv.lower "noext".toList)).1 = false)
+end src
+
 end S2T.C07
